@@ -41,8 +41,9 @@ class PermutedPool:
 
 class SeededInterleavingPool:
     """Worker tasks run in real threads, but only the thread holding the baton executes; at every traced line of
-    catii code the baton moves to a thread drawn from a seeded PRNG. The interleaving is therefore a deterministic
-    function of the seed, at source-line (bytecode-run) granularity."""
+    catii code the baton moves, with probability `switch_prob`, to a thread drawn from a seeded PRNG. The interleaving is
+    therefore a deterministic function of the seed, at source-line (bytecode-run) granularity. The baton is one
+    semaphore per thread (a hand-over wakes exactly one thread)."""
 
     def __init__(self, seed, switch_prob=0.35):
         self.seed = seed
@@ -62,33 +63,34 @@ class SeededInterleavingPool:
         if n == 0:
             return []
         rng = random.Random(self.seed)
-        cond = threading.Condition()
-        state = {"current": None, "alive": set(range(n))}
+        sems = [threading.Semaphore(0) for _ in range(n)]
+        alive = set(range(n))
         results, errors = [None] * n, [None] * n
-        state["current"] = rng.choice(sorted(state["alive"]))
+        done = threading.Semaphore(0)
 
-        def wait_turn(i):
-            with cond:
-                while state["current"] != i:
-                    cond.wait()
-
-        def maybe_switch(i):
-            with cond:
-                if len(state["alive"]) > 1 and rng.random() < self.p:
-                    state["current"] = rng.choice(sorted(state["alive"]))
+        def hand_over(i, finished=False):
+            """called by the baton holder i: pick the next runner; block until the baton comes back (unless finished)"""
+            if finished:
+                alive.discard(i)
+                if alive:
+                    sems[rng.choice(sorted(alive))].release()
+                done.release()
+                return
+            if len(alive) > 1 and rng.random() < self.p:
+                j = rng.choice(sorted(alive))
+                if j != i:
                     self.switches += 1
-                    cond.notify_all()
-                while state["current"] != i:
-                    cond.wait()
+                    sems[j].release()
+                    sems[i].acquire()
 
         def worker(i):
-            wait_turn(i)
+            sems[i].acquire()                      # wait for the baton
 
             def tracer(frame, event, arg):
                 if "catii" not in frame.f_code.co_filename:
                     return None
                 if event == "line":
-                    maybe_switch(i)
+                    hand_over(i)
                 return tracer
 
             sys.settrace(tracer)
@@ -98,18 +100,14 @@ class SeededInterleavingPool:
                 errors[i] = e
             finally:
                 sys.settrace(None)
-                with cond:
-                    state["alive"].discard(i)
-                    if state["alive"]:
-                        state["current"] = rng.choice(sorted(state["alive"]))
-                    cond.notify_all()
+                hand_over(i, finished=True)
 
         threads = [threading.Thread(target=worker, args=(i,), daemon=True) for i in range(n)]
         for t in threads:
             t.start()
-        for t in threads:
-            t.join(60)
-            if t.is_alive():
+        sems[rng.choice(range(n))].release()       # the first baton holder
+        for _ in range(n):
+            if not done.acquire(timeout=120):
                 raise TimeoutError("seeded scheduler: worker did not finish")
         for e in errors:
             if e is not None:
